@@ -124,6 +124,9 @@ def initial_state(tag="H0"):
     for comp in ("llen", "dsize"):
         t = z3.Select(st.heap[comp], a)
         st.assume(z3.ForAll([a], t >= 0, patterns=[t]))
+    # a dict/set that has a key is not empty (dsize is the cardinality of the key set)
+    t = z3.Select(z3.Select(st.heap["dhas"], a), k)
+    st.assume(z3.ForAll([a, k], z3.Implies(t, z3.Select(st.heap["dsize"], a) > 0), patterns=[t]))
     # list arrays are normalised: the 'no value' marker outside [0, len)  (maintained by every list model)
     t = z3.Select(z3.Select(st.heap["lelem"], a), i)
     st.assume(z3.ForAll([a, i], z3.Implies(z3.Or(i < 0, i >= z3.Select(st.heap["llen"], a)), t == ABSENT), patterns=[t]))
